@@ -74,7 +74,7 @@ func vc13CIBounds(data []byte) (out []int) {
 // the lookup of key i ("v:...", "notfound", "err", "panic:..."), or nil when the open fails. keyIdx: the keys looked up
 // at every cut (nil = all).
 func (x *vc13Run) sweepCI(kind string, data []byte, names []string, keyIdx []int, sample int,
-	opener func(r *vc13Reader, prefetch bool) func(i int) string) {
+	opener func(r indexes.ReaderAtCloser, prefetch bool) func(i int) string) {
 	if keyIdx == nil {
 		for i := range names {
 			keyIdx = append(keyIdx, i)
@@ -96,10 +96,11 @@ func (x *vc13Run) sweepCI(kind string, data []byte, names []string, keyIdx []int
 		for _, i := range keyIdx {
 			complete[i] = full(i)
 		}
-		for _, cut := range x.cuts(len(data), bounds, sample) {
+		cuts, tagged := x.cutsTagged(len(data), bounds, sample)
+		for _, cut := range cuts {
 			r := &vc13Reader{data: data[:cut]}
 			look := opener(r, pf)
-			for _, i := range keyIdx {
+			one := func(i, attempt int) {
 				r.reset()
 				got := "err"
 				if look != nil {
@@ -109,20 +110,33 @@ func (x *vc13Run) sweepCI(kind string, data []byte, names []string, keyIdx []int
 				if look == nil || pf {
 					rr = nil
 				}
-				x.observe(k, cut, len(data), names[i], complete[i], got, rr)
+				x.observeN(k, cut, len(data), names[i], attempt, complete[i], got, rr)
+			}
+			for _, i := range keyIdx {
+				one(i, 1)
+			}
+			// the same keys again on the same open reader: once after all the others, then once more at once
+			if look != nil && vc13RepeatAt(cut, tagged) {
+				for _, i := range keyIdx {
+					for a := 2; a <= vc13Attempts; a++ {
+						one(i, a)
+					}
+				}
 			}
 		}
 		var dnames []string
 		for _, i := range keyIdx {
 			dnames = append(dnames, names[i])
 		}
-		x.directed(k, data, dnames, func(r *vc13Reader, j int) (string, bool) {
+		x.directed(k, data, dnames, func(r *vc13Reader) (func(j int) string, bool) {
 			look := opener(r, pf)
 			if look == nil {
-				return "err", false
+				return nil, false
 			}
-			return look(keyIdx[j]), !pf
+			return func(j int) string { return look(keyIdx[j]) }, !pf
 		})
+		// lookups of keys of one bucket issued at the same time on one open reader (c13c_test.go)
+		x.concurrent(k, data, names, keyIdx, complete, func(r indexes.ReaderAtCloser) func(i int) string { return opener(r, pf) })
 	}
 	x.rep.Count(fmt.Sprintf("file:%s bytes=%d keys=%d", kind, len(data), len(keyIdx)))
 }
@@ -181,7 +195,7 @@ func (x *vc13Run) bigIndex(root cid.Cid, sample int) {
 	for _, k := range keys {
 		names = append(names, k.String())
 	}
-	opener := func(r *vc13Reader, prefetch bool) func(i int) string {
+	opener := func(r indexes.ReaderAtCloser, prefetch bool) func(i int) string {
 		ix := func() (ix *indexes.CidToOffsetAndSize_Reader) {
 			defer func() {
 				if recover() != nil {
